@@ -41,6 +41,8 @@ ANY_POS = [("start", "node.start", "usize"), ("v", "self.0", "u8"), ("sizes", "n
            ("ntrans", "node.ntrans", "usize"), ("version", "node.version", "u64")]
 ONE_POS = [("start", "node.start", "usize"), ("v", "self.0", "u8"), ("sizes", "node.sizes", "PackSizes")]
 
+FST_NEW = [("len", "bytes.len()", "usize"), ("version", "version", "u64"), ("root_addr", "root_addr", "usize")]
+
 # (coq name, file, owner, fn, mode, declared parameters or None, result is an option, declared result type)
 TARGETS = [
     ("src_fn_pack_size", "src/bytes.rs", None, "pack_size", ("fn",), None, False, None),
@@ -97,6 +99,11 @@ TARGETS = [
     ("src_fn_StateAnyTrans_input_at", "src/raw/node.rs", "StateAnyTrans", "input", ("let", "at"), ANY_POS + [("i", "i", "usize")], False, "usize"),
     ("src_fn_StateAnyTrans_find_input_start", "src/raw/node.rs", "StateAnyTrans", "find_input", ("let", "start"), ANY_POS, False, "usize"),
     ("src_fn_StateAnyTrans_output_at", "src/raw/node.rs", "StateAnyTrans", "output", ("let", "at"), ANY_POS + [("i", "i", "usize")], True, "usize"),
+    # Fst::new: the conditions of its four rejecting `if`s
+    ("src_fn_Fst_new_too_short", "src/raw/mod.rs", "Fst", "new", ("cond", 1), FST_NEW, False, "bool"),
+    ("src_fn_Fst_new_bad_version", "src/raw/mod.rs", "Fst", "new", ("cond", 2), FST_NEW, False, "bool"),
+    ("src_fn_Fst_new_too_short_v3", "src/raw/mod.rs", "Fst", "new", ("cond", 3), FST_NEW, False, "bool"),
+    ("src_fn_Fst_new_bad_root", "src/raw/mod.rs", "Fst", "new", ("cond", 4), FST_NEW, False, "bool"),
 ]
 
 
